@@ -22,6 +22,11 @@ pub fn change_universe() -> Vec<String> {
     v.push("x.txt".into());
     v.push("x.txt2".into());
     v.push("lib/x".into());
+    // a changed path that IS a configured path (git reports a symbolic link, a single file or a
+    // submodule that way): equal to a target path / a uses entry, not below it
+    for d in ["a", "a/c", "ab", "lib"] {
+        v.push(d.to_string());
+    }
     v
 }
 
@@ -663,7 +668,7 @@ pub fn run(tier: &str, root: &Path) -> Value {
     rep.sample(json!({"config": feature_cfgs[3].to_value(), "change": "a/c/f", "oracle_must_may": [oracle(&feature_cfgs[3], "a/c/f", false).0, oracle(&feature_cfgs[3], "a/c/f", false).1]}));
     rep.sample(json!({"config": feature_cfgs[7].to_value(), "change": "lib/f", "oracle_must_may": [oracle(&feature_cfgs[7], "lib/f", false).0, oracle(&feature_cfgs[7], "lib/f", false).1]}));
     rep.finish(
-        "configurations: every non-empty target set T of D (|T|<=max_targets) x every placement of <=k_u uses and <=k_i ignores entries drawn from P on any target (x every declaration order up to the stated size); per configuration: each of the 21 changes alone (summary vs recursive oracle, sortedness, summary == union of non-ignored breakdown entries), then the empty list, all changes, reversed, and every change duplicated (must equal the union of the single-change results); batching: 121-element lists with one change at every position 0..120 and two changes at every pair of chunk-boundary positions, each twice, plus cyclic lists of 50..333 changes; evaluations = analyze calls; non-trivial = distinct configurations where some change must flag a target and two configured names are in a string-prefix relation",
+        "configurations: every non-empty target set T of D (|T|<=max_targets) x every placement of <=k_u uses and <=k_i ignores entries drawn from P on any target (x every declaration order up to the stated size); per configuration: each of the 25 changes (21 below configured paths, 4 equal to one) alone (summary vs recursive oracle, sortedness, summary == union of non-ignored breakdown entries), then the empty list, all changes, reversed, and every change duplicated (must equal the union of the single-change results); batching: 121-element lists with one change at every position 0..120 and two changes at every pair of chunk-boundary positions, each twice, plus cyclic lists of 50..333 changes; evaluations = analyze calls; non-trivial = distinct configurations where some change must flag a target and two configured names are in a string-prefix relation",
         true,
         json!({"dir_universe": D, "extra_entries": P_EXTRA, "changes": chs.len()}),
     )
